@@ -119,7 +119,17 @@ class ExprMixin:
     def ev_name(self, n, st, fx):
         name = n.id
         if name in st.env:
-            yield "ok", st.env[name], st
+            v = st.env[name]
+            if isinstance(v, tuple) and v[:1] == ("mu",):
+                # bound only if an earlier loop ran at least once
+                s2 = st.fork()
+                del s2.env[name]
+                self.emit(s2, fx, "UNDEFINED", n, name=name, local=True, why="loop that may not have run")
+                yield "raise", self.exc(s2, "UnboundLocalError", name), s2
+                st.env[name] = v[1]
+                yield "ok", v[1], st
+                return
+            yield "ok", v, st
             return
         if name in fx.func.locals:
             # local, no binding on this path
